@@ -64,11 +64,11 @@ func runOne(ctx context.Context, sp solverSpec, file string, timeout time.Durati
 }
 
 // solve races the portfolio; needAgree>1 asks for agreement between that many solvers (thorough tier).
-func solve(script string, dir string, name string, timeout time.Duration, wantModel bool, all bool) solveResult {
+func solve(script string, dir string, name string, timeout time.Duration, modelTerms []string, all bool) solveResult {
 	file := filepath.Join(dir, sanitize(name)+".smt2")
 	body := script
-	if wantModel {
-		body += "(get-model)\n"
+	if len(modelTerms) > 0 {
+		body += "(get-value (" + strings.Join(modelTerms, " ") + "))\n"
 	}
 	if err := os.WriteFile(file, []byte(body), 0o644); err != nil {
 		return solveResult{answer: "error", output: err.Error()}
@@ -153,7 +153,13 @@ func dischargeAll(obls []*Obligation, dir string, timeout time.Duration, tier st
 		go func(o *Obligation) {
 			defer wg.Done()
 			defer func() { <-sem }()
-			r := solve(o.script, dir, o.Name, timeout, o.ExpectSat == false, tier == "thorough")
+			var mt []string
+			if !o.ExpectSat {
+				for _, mv := range o.model {
+					mt = append(mt, mv.Term)
+				}
+			}
+			r := solve(o.script, dir, o.Name, timeout, mt, tier == "thorough")
 			o.Answer, o.Solver, o.Secs = r.answer, r.solver, r.secs
 			if o.ExpectSat {
 				switch r.answer {
